@@ -79,7 +79,7 @@ def run(prog, tier, extra=None):
     R1b = res.rule("C01.combinator", "the result of all()/any() over a verdict closure gates its consumer", floor=2)
     R2 = res.rule("C01.who-may-insert", "only add_transaction (behind validate) and add_block_transactions_back insert into the pool", floor=2)
     R4 = res.rule("C01.dup-scan", "the in-block double-spend scan checks and records each spent key individually", floor=1)
-    R5 = res.rule("C01.scan-exemptions", "only zero-amount and Bound inputs are exempt from the in-block double-spend test", floor=0)
+    R5 = res.rule("C01.scan-exemptions", "only zero-amount inputs (placeholders that are never looked up) are exempt from the in-block double-spend test", floor=0)
     R8 = res.rule("C01.ledger-check-window", "the ledger check is switched on by the presence of the block exactly one configured genesis period behind the tip (or block 1)", floor=2)
     R9 = res.rule("C01.stake-input-lookup", "Blockchain::is_slip_unlocked (the only ledger test of a staking transaction's inputs inside Transaction::validate) answers true only after finding the key in the UTXO set", floor=1)
     R7 = res.rule("C01.utxo-lookup", "validate_against_utxoset skips the per-input ledger lookup only for the Fee transaction", floor=1)
@@ -292,8 +292,10 @@ def run(prog, tier, extra=None):
         if (call_name(t) or "").rsplit("::", 1)[-1] in ("insert", "entry") and t["args"] and keyed_by_utxo_key(sweep, t):
             test_blocks.add(bb)
     zero = gate.compare_edges(sweep, chs, lambda a, c: has_field(a, "slip::Slip", "amount") and c[0] == "const" and c[1] == 0)
-    bound, _ = gate.enum_compare_edges(prog, sweep, chs, "slip::SlipType", "slip_type", {"Bound"})
-    exempt = set(zero["eq"]) | set(bound)
+    # an input is looked up in the ledger exactly when its amount is non-zero (Slip::validate): that is the only exemption the
+    # property allows. (Until round 7 this rule also let `slip_type == Bound` pass because the code did: the first slip of an NFT
+    # group is Bound *and* carries an amount, and two transactions of one block could both spend it.)
+    exempt = set(zero["eq"])
     for lh in loop_heads:
         res.instance(R5)
         nxt = sweep.term(lh).get("t")
@@ -316,10 +318,10 @@ def run(prog, tier, extra=None):
             if p:
                 bad = p
         if bad:
-            res.add(Finding(R5, "C01.scan-exemptions", "the in-block double-spend sweep can skip an input for a reason other than a zero amount or a Bound slip: "
+            res.add(Finding(R5, "C01.scan-exemptions", "the in-block double-spend sweep can skip a value-carrying input (a reason other than amount == 0): "
                             "two transactions of one block can then spend that output", sweep.loc(bad[0]), {"path": describe_path(sweep, bad)}))
         else:
-            res.sample({"rule": R5, "loop": sweep.loc(lh), "exemptions": "amount == 0, slip_type == Bound", "verdict": "every other input reaches the already-spent test"})
+            res.sample({"rule": R5, "loop": sweep.loc(lh), "exemptions": "amount == 0", "verdict": "every other input reaches the already-spent test"})
     if not loop_heads:
         res.not_decided.append("C01.scan-exemptions: the sweep does not use an explicit loop over tx.from (iterator chain?); exemptions not decided")
 
